@@ -5,7 +5,7 @@
  "enforce": ["callback_read_header"],
  "replace": ["gotheaders", "fail", "die"],
  "annotate": ["http/http.c"],
- "defines": ["VERIF_HALLOC", "HTTP_N=24", "HTTP_BODYMAX=8", "VERIF_STRMAX=8"],
+ "defines": ["VERIF_HALLOC", "HTTP_N=32", "HTTP_BODYMAX=8", "VERIF_STRMAX=8"],
  "thorough_defines": ["HTTP_N=1024"],
  "models": ["models/libc_string.c", "models/http_env.c"],
  "timeout": 600,
